@@ -838,6 +838,9 @@ EXPLANATION += (
 EXPLANATION += (
     ' R2c: every byte parse_template_segments reads through its raw pointer (`*ptr.add(e)`) is guarded by exactly `e < len` on the same expression - a missing guard reads past the literal, a wider one drops the last position.'
 )
+EXPLANATION += (
+    ' R3b also: the end of a combined span never comes from a placeholder span (`Range::default()`, 0..0) while its start is a position read from the token stream (tuple components and plain copies are followed to where the span was obtained).'
+)
 ASSUMPTIONS = ["the input is a &str (valid UTF-8)", "memchr2 returns an index <= haystack length"]
 TRUSTED = ["rustc nightly MIR", "nsx exporter", "nsverif expression reconstruction / staleness computation"]
 NONTRIVIAL = "one obligation per cursor write, call-site justification, byte read, unchecked re-slice, parser loop; distinct = distinct site"
